@@ -396,8 +396,13 @@ def _compile_objects(
     # since CFFI logs into root logger
     old_handlers = root_logger.handlers.copy()
     root_logger.handlers = [logging.StreamHandler(f)]
-    with redirect_stdout(f):
-        ffibuilder.compile(tmpdir=cache_dir, verbose=True, debug=cffi_debug)
+    try:
+        with redirect_stdout(f):
+            ffibuilder.compile(tmpdir=cache_dir, verbose=True, debug=cffi_debug)
+    finally:
+        # Copy back the original handlers, also when the compiler fails (in
+        # case someone is logging into root logger and has custom handlers)
+        root_logger.handlers = old_handlers
     s = f.getvalue()
     if cffi_verbose:
         print(s)
@@ -410,10 +415,6 @@ def _compile_objects(
     fd = open(ready_name, "x")
     fd.write(s)
     fd.close()
-
-    # Copy back the original handlers (in case someone is logging into
-    # root logger and has custom handlers)
-    root_logger.handlers = old_handlers
 
     return code_body
 
